@@ -4,7 +4,7 @@ from . import solver_props as sp
 
 FUNCS = ['solver.py:Solver.solve', 'solver.py:Solver._attempt_field', 'solver.py:Solver._attempt_input', 'solver.py:Solver._add_form', 'solver.py:Solver._add_input_spec',
          'solver.py:Solver._add_unattempted', 'solver.py:DependencyTracker.add_unmet/meet/has_met/has_unmet/unmet_dependencies/unmet_dependents (inlined)',
-         'solver.py:DependencyTracker.met_dependents (by its verified contract)', 'values.py:ValueStore.__setitem__', '__init__.py:solve']
+         'solver.py:DependencyTracker.met_dependents (by its verified contract)', 'values.py:ValueStore.__setitem__', '__init__.py:solve', 'fields.py:TypedField.value', 'fields.py:FloatField.value']
 
 
 def helper_frames():
@@ -18,9 +18,22 @@ def helper_frames():
     return out
 
 
+def field_value_units():
+    """The value the solver stores for a line is FieldType.value(definition(...)); the solution that is returned and written
+    shows that stored value through to_string.  "Equals what the definition yields against the other values of the same
+    solution" therefore rests on the value() contracts of C12 (a float line is stored rounded to exactly the places it is
+    shown with, so no line is computed from hidden cents the solution does not show)."""
+    from . import c12
+    out = []
+    for o in c12.field_contracts():
+        o.id = o.id.replace('C12/', 'C03/')
+        out.append(o)
+    return out
+
+
 def extra_tasks(tier, seed):
     from ..oblig import Task
-    return [Task('helpers', helper_frames)]
+    return [Task('helpers', helper_frames), Task('fieldvalue', field_value_units, weight=5)]
 
 
 def run(tier, seed, t0):
